@@ -269,6 +269,10 @@ def shards(tier, seed):
                 sh.append(("data2", (n, cost, msl, 0.05), 0, 4 ** n))
     for n, cost, msl in ((6, "L2", 1), (7, "L2", 2), (7, "GaussianVar", 2)):
         sh.append(("data3", (n, cost, msl, 0.1), 0, 2 ** n))
+    # multivariate cost (one output column whatever p is) on two generic columns
+    for n in (6, 7, 8) if tier == "quick" else (6, 7, 8, 9, 10, 11):
+        for scale in (0.05, 0.5):
+            sh.append(("datacov", (n, "GaussianCov", 3, scale), 0, 2 ** n))
     # medium-length series: all placements of <= 2 (3) changes, larger min_segment_length
     for n in (12, 16, 20) if tier == "quick" else (12, 16, 20, 24, 32):
         for cost, msl, scale in (("L2", 1, 1.0), ("L2", 4, 0.5), ("L2", 5, 0.05), ("GaussianVar", 4, 0.5), ("GaussianVar", 6, 0.2)):
@@ -289,6 +293,7 @@ def bounds(tier, seed):
         "data_configs": sorted({str((c[0], c[1], c[2], c[3])) for c in data_configs(tier, seed)})[:60],
         "penalty_scales_data": [0.0, 0.05, 1.0],
         "medium_length": "piecewise-constant series with a deterministic texture, n in (12,16,20) quick / up to 32: all placements of <= 2 changes (and a third of the admissible 3-change placements for msl >= 4); msl in (1,4,5,6)",
+        "multivariate_cost_data": "GaussianCovCost, msl 3, on two generic columns built from every (0,3) series n in (6,7,8) quick / (6..11), scales 0.05 and 0.5",
         "two_column_data": "all 2-column matrices over (0,3), n<=5 (quick)/6, L2 (msl 1,2) and GaussianVar (msl 2), scale 0.05",
     }
 
@@ -326,6 +331,10 @@ def run_shard(shard):
         n, cost, msl, scale = cfg
         for xs in itertools.islice(itertools.product((0, 3), repeat=n), lo, hi):
             check_case(acc, {"mode": "data", "x": util.three_columns(xs), "cost": cost, "msl": msl, "scale": scale})
+    elif kind == "datacov":
+        n, cost, msl, scale = cfg
+        for xs in itertools.islice(itertools.product((0, 3), repeat=n), lo, hi):
+            check_case(acc, {"mode": "data", "x": util.two_generic_columns(xs), "cost": cost, "msl": msl, "scale": scale})
     elif kind == "datafit":
         n, cost, msl, scale, k = cfg
         for xs in itertools.islice(itertools.product((0, 1, 3), repeat=n), lo, hi):
@@ -347,7 +356,9 @@ def run_shard(shard):
 def make_cost(name):
     from skchange.costs import GaussianVarCost, L2Cost
 
-    return {"L2": L2Cost, "GaussianVar": GaussianVarCost}[name]()
+    from skchange.costs import GaussianCovCost
+
+    return {"L2": L2Cost, "GaussianVar": GaussianVarCost, "GaussianCov": GaussianCovCost}[name]()
 
 
 def check_case(acc, case):
@@ -373,13 +384,25 @@ def check_case(acc, case):
                 det = PELT(make_cost(case["cost"]), penalty_scale=case["scale"], min_segment_length=msl)
                 det.fit(X if not case.get("fit_rows") else X.iloc[: case["fit_rows"]])
                 pen = float(det.penalty_)
-                y = det.predict(X)
+                try:
+                    y = det.predict(X)
+                except RuntimeError:
+                    if case["cost"] != "GaussianCov":
+                        raise
+                    acc.count("cov_data_with_a_singular_window_skipped")
+                    return
                 cpts = [int(c) for c in y["ilocs"]]
                 scores = np.asarray(det.scores, dtype=float)
                 ref = make_cost(case["cost"]).fit(x)
                 ms = max(msl, ref.min_size or 1)
                 iv = np.array(intervals(n, ms))
-                vals = ref.evaluate(iv).sum(axis=1)
+                try:
+                    vals = ref.evaluate(iv).sum(axis=1)
+                except RuntimeError:
+                    if case["cost"] != "GaussianCov":
+                        raise
+                    acc.count("cov_data_with_a_singular_window_skipped")
+                    return
                 C = [[None] * (n + 1) for _ in range(n + 1)]
                 for (s, e), v in zip(iv, vals):
                     C[s][e] = float(v)
